@@ -880,11 +880,11 @@ def iter_spaces(ctx, part):
     if ctx.quick:
         k = {"fi": 1.0, "ci": 1.0, "sp": 0.35, "rp": 0.5}[part]
         spaces = [("iter123", renumber_ids(sample(ctx, small, int(1200 * k))), t3), ("core3", renumber_ids(sample(ctx, core3, int(600 * k))), t3),
-                  ("ctxfill", renumber_ids(sample(ctx, cf, int(600 * k))), t3),
+                  ("ctxfill", renumber_ids(sample(ctx, cf, int(600 * k))), t3), ("ctx2", common.ctx2(ctx, "ctx2_" + part, int(300 * k)), t3),
                   ("random", randgen.random_pats(ctx.rng, "core", int(400 * k), depth=3), t3)]
     else:
         t4 = texts("sig6", 4)
-        spaces = [("iter123", renumber_ids(small), t3), ("core3", core3, t3), ("ctxfill", cf, t3),
+        spaces = [("iter123", renumber_ids(small), t3), ("core3", core3, t3), ("ctxfill", cf, t3), ("ctx2", common.ctx2(ctx, "ctx2_" + part, 3000), t3),
                   ("random", randgen.random_pats(ctx.rng, "core", 6000, depth=4, max_nodes=16), t3),
                   ("iter123_L4", renumber_ids(sample(ctx, small, 600)), t4)]
     return spaces
@@ -913,7 +913,7 @@ def c05(ctx):
     tw3 = texts("wide", 3)
     tw2 = texts("wide", 2)
     shapes, small, rnd = wild_space(ctx, 900 if ctx.quick else 4000, 900 if ctx.quick else 20000)
-    for name, recs in (("shapes", shapes), ("wild123", small), ("random_wild", rnd)):
+    for name, recs in (("shapes", shapes), ("wild123", small), ("random_wild", rnd), ("ctx2", common.ctx2(ctx, "ctx2", 300 if ctx.quick else 3000))):
         iterp.run_iters(ctx, name, recs, tw3, "c5", "", parts="fi,ci,sp,co,rows" if name != "shapes" else "fi,ci,sp,co,rows,rp")
     # (b) design-level search for reachable panic sites, driven by what the real compiler emits
     progs = vmp.dump_progs(ctx, "wildprogs", renumber_ids(shapes + sample(ctx, small, 500 if ctx.quick else 3000) + sample(ctx, rnd, 300 if ctx.quick else 3000)))
@@ -1156,9 +1156,10 @@ def c09(ctx):
         it += read_ndjson(pats("iter", n))
     if ctx.quick:
         spaces = [("shapes", read_ndjson(pats("wildshapes", 0)), tw), ("shapes_sig6", read_ndjson(pats("wildshapes", 0)), t3), ("wild123", renumber_ids(sample(ctx, wild, 1500)), t3), ("iter123", renumber_ids(sample(ctx, it, 600)), t3),
+                  ("ctx2", common.ctx2(ctx, "ctx2", 300), t3),
                   ("random_wild", randgen.random_pats(ctx.rng, "wild", 800, depth=3), tw)]
     else:
-        spaces = [("shapes", read_ndjson(pats("wildshapes", 0)), tw), ("shapes_sig6", read_ndjson(pats("wildshapes", 0)), t3), ("wild123", renumber_ids(wild), t3), ("iter123", renumber_ids(it), t3),
+        spaces = [("ctx2", common.ctx2(ctx, "ctx2", 3000), t3), ("shapes", read_ndjson(pats("wildshapes", 0)), tw), ("shapes_sig6", read_ndjson(pats("wildshapes", 0)), t3), ("wild123", renumber_ids(wild), t3), ("iter123", renumber_ids(it), t3),
                   ("wild4", renumber_ids(sample(ctx, read_ndjson(pats("wild", 4)), 20000)), t3),
                   ("random_wild", randgen.random_pats(ctx.rng, "wild", 20000, depth=4, max_nodes=16), tw)]
     for name, recs, tpath in spaces:
